@@ -95,7 +95,62 @@ def text_interface(text):
         m = _RE_XREF.search(line)
         if m:
             refs.append(m.group(1).lower())
-    return {"routines": routines, "defs": sorted(set(defs)), "refs": sorted(set(refs))}
+    return {"routines": routines, "defs": sorted(set(defs)), "refs": sorted(set(refs)),
+            "statics": text_statics(text)}
+
+
+_RE_END = re.compile(r"^\s*end\s*(function|subroutine)\b", re.I)
+
+
+def text_statics(text):
+    '''"routine:variable" (lower case) of the routine-local variables a Fortran
+    text makes static: SAVE attribute, initial value without PARAMETER, named in
+    a SAVE statement, or every local of a routine with a bare SAVE.'''
+    out, cur, locs, dummies, bare = set(), None, [], set(), False
+    for line in text.splitlines():
+        line = line.split("!")[0].strip()
+        low = line.lower()
+        if _RE_END.match(line):
+            if cur and bare:
+                out |= {f"{cur}:{v}" for v in locs if v not in dummies}
+            cur = None
+            continue
+        m = _RE_ROUTINE.match(line)
+        if m:
+            cur, locs, bare = m.group(3).lower(), [], False
+            dummies = {a.strip().lower() for a in (m.group(4) or "").split(",") if a.strip()}
+            if m.group(5):
+                dummies.add(m.group(5).lower())
+            dummies.add(cur)
+            continue
+        if cur is None:
+            continue
+        if "::" in line:
+            attrs, ents = low.split("::", 1)
+            attrs = [a.strip() for a in attrs.split(",")]
+            depth, names, item = 0, [], ""
+            for ch in ents + ",":
+                if ch == "(":
+                    depth += 1
+                elif ch == ")":
+                    depth -= 1
+                if ch == "," and depth == 0:
+                    names.append(item.strip())
+                    item = ""
+                else:
+                    item += ch
+            for ent in names:
+                nm = re.match(r"\w+", ent).group(0)
+                locs.append(nm)
+                if "save" in attrs or ("=" in ent and "parameter" not in attrs):
+                    out.add(f"{cur}:{nm}")
+        elif re.match(r"^save\b", low):
+            rest = low[4:].replace("::", "").strip()
+            if not rest:
+                bare = True
+            else:
+                out |= {f"{cur}:{v.strip()}" for v in rest.split(",") if v.strip()}
+    return sorted(out)
 
 
 def pipeline(prog, text=None):
@@ -152,6 +207,7 @@ def make_case(prog, rec):
     case["siface"] = G.interface(prog.body)
     wi = text_interface(rec["written"])
     case["wiface"], case["wdefs"], case["wrefs"] = wi["routines"], wi["defs"], wi["refs"]
+    case["sstatic"], case["wstatic"] = G.statics(prog.body), wi["statics"]
     if rec["p1"] is None:
         return case
     decls = ref["decls"]
